@@ -71,6 +71,7 @@ type treeProj struct {
 type memProj struct {
 	Space  bool       `json:"space"`
 	Acl    int        `json:"acl"`
+	Known  []int      `json:"known"`
 	Tr     []treeProj `json:"tr"`
 	Obs    [][]int    `json:"obs"`
 	ObsAcl int        `json:"obsAcl"`
@@ -83,6 +84,11 @@ type step struct {
 	New   []int    `json:"new"`
 	Set   []int    `json:"set"`
 	I     int      `json:"i"`
+	Lo    int      `json:"lo"`    // ACL adds: first record of the payload
+	More  int      `json:"more"`  // records of the payload after I
+	Batch bool     `json:"batch"` // AddRawRecords (false: AddRawRecord)
+	Cont  bool     `json:"cont"`  // the next record of a batch: part of the call of the step before
+	Done  int      `json:"done,omitempty"` // (merged batch step) records written completely before the fault
 	Prog  []string `json:"prog"`
 	Fat   int      `json:"fat"`
 	Fate  string   `json:"fate"`
@@ -90,6 +96,8 @@ type step struct {
 	Retry bool     `json:"retry"`
 	Disk  diskProj `json:"disk"`
 	Mem   memProj  `json:"mem"`
+	// NoProj: a behaviour written by the harness itself (large batches): no spec projections to compare with
+	NoProj bool `json:"noproj,omitempty"`
 }
 type changeProj struct {
 	Id   int   `json:"id"`
@@ -218,6 +226,7 @@ type runner struct {
 	deleted  map[int]bool // Delete returned nil
 	stepNo   int
 	failed   bool
+	lastSeq  []string // storage calls of the last operation (without rollbacks)
 }
 
 func (x *runner) replayObj() any {
@@ -289,6 +298,24 @@ func (x *runner) specIds(real []string) []int {
 	return res
 }
 
+// compress shortens runs of equal calls ("insert:changes x64").
+func compress(seq []string) []string {
+	var res []string
+	for i := 0; i < len(seq); {
+		j := i
+		for j < len(seq) && seq[j] == seq[i] {
+			j++
+		}
+		if j-i > 2 {
+			res = append(res, fmt.Sprintf("%s x%d", seq[i], j-i))
+		} else {
+			res = append(res, seq[i:j]...)
+		}
+		i = j
+	}
+	return res
+}
+
 func callName(c storageCall) string {
 	if c.Coll != "" {
 		return c.Op + ":" + c.Coll
@@ -303,6 +330,12 @@ func opLabel(s step, x *runner) string {
 	}
 	if s.Kind == "localv" && s.Snap {
 		l = "localv-snapshot"
+	}
+	if s.Kind == "acl" && s.Batch {
+		l = fmt.Sprintf("acl-batch%d", s.I+s.More-s.Lo+1)
+	}
+	if s.Kind == "remote" && len(s.Set) > 8 {
+		l += "-large" // a long batch in one AddRawChanges (see large_test.go)
 	}
 	if (s.Kind == "local" || s.Kind == "remote") && x.deferred[s.T] {
 		l += "-deferred"
@@ -332,7 +365,8 @@ func (x *runner) run() error {
 			_ = x.px.DB.Close()
 		}
 	}()
-	for i, s := range x.b.Steps {
+	steps := mergeBatches(x.b.Steps)
+	for i, s := range steps {
 		x.stepNo = i + 1
 		var err error
 		switch s.A {
@@ -356,6 +390,35 @@ func (x *runner) run() error {
 	}
 	// the final durable state must reopen
 	return x.checkReopen("final", nil)
+}
+
+// mergeBatches: AddRawRecords is one call of the code but one spec operation per record (each record has a
+// transaction of its own); the steps of one call are merged into one step whose program is the concatenation,
+// whose fault point is counted from the first call, and whose projections are those after the last record that
+// was (or was to be) written. Done = records written completely before the fault.
+func mergeBatches(in []step) []step {
+	var out []step
+	for i := 0; i < len(in); i++ {
+		s := in[i]
+		if !(s.A == "op" && s.Kind == "acl" && s.Batch && !s.Cont) {
+			out = append(out, s)
+			continue
+		}
+		m := s
+		m.Prog = append([]string{}, s.Prog...)
+		for i+1 < len(in) && in[i+1].A == "op" && in[i+1].Kind == "acl" && in[i+1].Cont {
+			n := in[i+1]
+			if n.Fate != "ok" {
+				m.Fat, m.Fate = len(m.Prog)+n.Fat, n.Fate
+			}
+			m.Prog = append(m.Prog, n.Prog...)
+			m.Res, m.Disk, m.Mem = n.Res, n.Disk, n.Mem
+			m.Done++
+			i++
+		}
+		out = append(out, m)
+	}
+	return out
 }
 
 func (x *runner) stepAuthor(s step) error {
@@ -535,6 +598,20 @@ func (x *runner) stepOp(s step) error {
 			return err
 		}
 	case "acl":
+		if s.Batch {
+			// AddRawRecords with the records Lo..I+More (a re-issued batch is the same payload)
+			var recs []*consensusproto.RawRecordWithId
+			for i := s.Lo; i <= s.I+s.More; i++ {
+				rec := x.w.aclRecs[i-1]
+				recs = append(recs, &consensusproto.RawRecordWithId{Id: rec.Id, Payload: append([]byte{}, rec.Payload...)})
+			}
+			do = func() error {
+				x.r.acl.Lock()
+				defer x.r.acl.Unlock()
+				return x.r.acl.AddRawRecords(recs)
+			}
+			break
+		}
 		rec := x.w.aclRecs[s.I-1]
 		do = func() error { return x.r.addAcl(&consensusproto.RawRecordWithId{Id: rec.Id, Payload: append([]byte{}, rec.Payload...)}) }
 	case "delete":
@@ -577,7 +654,12 @@ func (x *runner) stepOp(s step) error {
 			seq = append(seq, callName(c))
 		}
 	}
-	x.rep.Case(fmt.Sprintf("%s|%s@%d|%v", label, s.Fate, s.Fat, s.Prog))
+	x.lastSeq = seq
+	if len(s.Prog) > 40 {
+		x.rep.Case(fmt.Sprintf("%s|%s@%d|batch of %d", label, s.Fate, s.Fat, len(s.Set)))
+	} else {
+		x.rep.Case(fmt.Sprintf("%s|%s@%d|%v", label, s.Fate, s.Fat, s.Prog))
+	}
 	faultCall := "none"
 	if s.Fat > 0 && s.Fat <= len(s.Prog) {
 		faultCall = s.Prog[s.Fat-1]
@@ -609,7 +691,7 @@ func (x *runner) stepOp(s step) error {
 		want = want[:s.Fat]
 	}
 	if strings.Join(seq, " ") != strings.Join(want, " ") {
-		x.drift("%s: storage calls %v, spec program %v", label, seq, want)
+		x.drift("%s: storage calls %v, spec program %v", label, compress(seq), compress(want))
 	}
 	if s.Fate == "error" && !hit {
 		x.drift("%s: fault point %d never reached (calls %v)", label, s.Fat, seq)
@@ -620,8 +702,14 @@ func (x *runner) stepOp(s step) error {
 		x.violate("error-swallowed:"+where, "storage call %d (%s) returned an error but the operation reported success (durable state %s)",
 			s.Fat, faultCall, map[bool]string{true: "unchanged", false: "changed"}[cur.key() == pre.key()])
 	}
-	if opErr != nil && cur.key() != pre.key() {
+	if opErr != nil && !s.Batch && cur.key() != pre.key() {
 		x.violate("Atomic:failed-op-changed-disk:"+where, "operation failed (%v) but the durable state changed: %s", opErr, diffState(pre, cur, x))
+	}
+	if opErr != nil && s.Batch {
+		// a batch is written record by record: all-or-nothing per record, the records before the failing one stay
+		if d := batchAtomic(pre, cur, s.Done, s.Done); d != "" {
+			x.violate("Atomic:failed-op-changed-disk:"+where, "AddRawRecords failed (%v) at its record %d: %s", opErr, s.Done+1, d)
+		}
 	}
 	if opErr != nil && !hit && !errors.Is(opErr, errInjected) && !errors.Is(opErr, errRejected) {
 		if s.Retry {
@@ -661,6 +749,26 @@ func (x *runner) stepOp(s step) error {
 }
 
 func diffState(a, b *absState, x *runner) string {
+	parts := diffParts(a, b)
+	if len(parts) > 8 {
+		added, removed := 0, 0
+		var other []string
+		for _, p := range parts {
+			switch {
+			case strings.HasPrefix(p, "+change"):
+				added++
+			case strings.HasPrefix(p, "-change"):
+				removed++
+			default:
+				other = append(other, p)
+			}
+		}
+		parts = append(other, fmt.Sprintf("+%d changes, -%d changes", added, removed))
+	}
+	return strings.Join(parts, "; ")
+}
+
+func diffParts(a, b *absState) []string {
 	var parts []string
 	for id, h := range b.Heads {
 		if fmt.Sprint(a.Heads[id]) != fmt.Sprint(h) {
@@ -684,7 +792,26 @@ func diffState(a, b *absState, x *runner) string {
 		parts = append(parts, fmt.Sprintf("space %q colls %v -> %q %v", short(a.Space), a.Colls, short(b.Space), b.Colls))
 	}
 	sort.Strings(parts)
-	return strings.Join(parts, "; ")
+	return parts
+}
+
+// batchAtomic: after a batch add that wrote `min`..`max` records completely, the durable state is the state
+// before plus exactly that many ACL records (the heads entry follows, checked by durable()), nothing else changed.
+func batchAtomic(pre, cur *absState, min, max int) string {
+	if n := len(cur.Acl) - len(pre.Acl); n < min || n > max {
+		return fmt.Sprintf("%d ACL records were added, expected %d..%d", n, min, max)
+	}
+	p := *pre
+	p.Acl = cur.Acl
+	p.Heads = map[string]absHeads{}
+	for k, v := range pre.Heads {
+		p.Heads[k] = v
+	}
+	p.Heads[cur.AclId] = cur.Heads[cur.AclId]
+	if p.key() != cur.key() {
+		return "the durable state changed outside the ACL log: " + strings.Join(diffParts(pre, cur), "; ")
+	}
+	return ""
 }
 
 // checkPersisted: after a successful retry the input is durable.
@@ -700,7 +827,7 @@ func (x *runner) checkPersisted(s step, cur *absState, label string) {
 			}
 		}
 	case "acl":
-		id := x.w.aclRecs[s.I-1].Id
+		id := x.w.aclRecs[s.I+s.More-1].Id // the last record of the payload
 		found := false
 		for _, r := range cur.Acl {
 			found = found || r.Id == id
@@ -742,6 +869,32 @@ func liveAgrees(r *replica, w *worldX, cur *absState, treeNo map[string]int, def
 		if head != stored {
 			res = append(res, [2]string{"acl", fmt.Sprintf("live ACL head %s, stored head %s", short(head), short(stored))})
 		}
+		// the whole list, not only its head: records, HasHead and IsAfter answer from what is stored
+		storedIds := map[string]bool{}
+		var storedSeq []string
+		for _, rec := range cur.Acl {
+			storedIds[rec.Id] = true
+			storedSeq = append(storedSeq, rec.Id)
+		}
+		r.acl.RLock()
+		var liveSeq []string
+		for _, rec := range r.acl.Records() {
+			liveSeq = append(liveSeq, rec.Id)
+		}
+		if strings.Join(liveSeq, ",") != strings.Join(storedSeq, ",") {
+			res = append(res, [2]string{"acl-records", fmt.Sprintf("live ACL records %v, stored records %v", shorts(liveSeq), shorts(storedSeq))})
+		}
+		for i, rec := range w.aclRecs {
+			if r.acl.HasHead(rec.Id) != storedIds[rec.Id] {
+				res = append(res, [2]string{"acl-hashead", fmt.Sprintf("HasHead(record %d) = %v, stored = %v", i+1, r.acl.HasHead(rec.Id), storedIds[rec.Id])})
+				break
+			}
+			if after, err := r.acl.IsAfter(rec.Id, w.aclRecs[0].Id); (err == nil && after) != storedIds[rec.Id] {
+				res = append(res, [2]string{"acl-isafter", fmt.Sprintf("IsAfter(record %d, root) = %v/%v, stored = %v", i+1, after, err, storedIds[rec.Id])})
+				break
+			}
+		}
+		r.acl.RUnlock()
 	}
 	for rootId, t := range r.trees {
 		n := treeNo[rootId]
@@ -795,7 +948,11 @@ func (x *runner) crash(s step, pre, post *absState, snapDir, where string, nCall
 	if err != nil {
 		return err
 	}
-	if st.key() != pre.key() && st.key() != post.key() {
+	if s.Batch {
+		if d := batchAtomic(pre, st, s.Done, s.Done+1); d != "" {
+			x.violate("Atomic:"+where, "crash image of a batch add at its record %d: %s", s.Done+1, d)
+		}
+	} else if st.key() != pre.key() && st.key() != post.key() {
 		x.violate("Atomic:"+where, "crash image is neither the state before nor after the operation: vs before: %s | vs after: %s",
 			diffState(pre, st, x), diffState(st, post, x))
 	}
@@ -870,6 +1027,9 @@ func (x *runner) checkReopen(where string, st *absState) error {
 // ---- conformance with the spec's projections (drift only)
 
 func (x *runner) compareDisk(s step, cur *absState) {
+	if s.NoProj {
+		return
+	}
 	d := s.Disk
 	if d.Space != (cur.Space != "") {
 		x.drift("disk.space %v, spec %v", cur.Space != "", d.Space)
@@ -916,6 +1076,9 @@ func sortedInts(a []int) []int {
 }
 
 func (x *runner) compareMem(s step) {
+	if s.NoProj {
+		return
+	}
 	m := s.Mem
 	if x.r.acl != nil && m.Acl > 0 {
 		x.r.acl.RLock()
@@ -923,6 +1086,17 @@ func (x *runner) compareMem(s step) {
 		x.r.acl.RUnlock()
 		if got != m.Acl {
 			x.drift("live ACL head is record %d, spec %d", got, m.Acl)
+		}
+		var known []int
+		x.r.acl.RLock()
+		for i, rec := range x.w.aclRecs {
+			if x.r.acl.HasHead(rec.Id) {
+				known = append(known, i+1)
+			}
+		}
+		x.r.acl.RUnlock()
+		if fmt.Sprint(known) != fmt.Sprint(sortedInts(m.Known)) {
+			x.drift("live ACL index knows records %v, spec %v", known, m.Known)
 		}
 	}
 	if x.r.obs != nil && m.Space {
@@ -1081,14 +1255,14 @@ func TestReplay(t *testing.T) {
 	bs := loadBehaviours(t)
 	base := scratchDir()
 	defer os.RemoveAll(base)
-	maxNT, maxAcl := 2, 1
+	maxNT, maxAcl := 3, 1
 	for _, b := range bs {
 		if b.NT > maxNT {
 			maxNT = b.NT
 		}
 		for _, s := range b.Steps {
-			if s.I-1 > maxAcl {
-				maxAcl = s.I - 1
+			if s.I+s.More-1 > maxAcl {
+				maxAcl = s.I + s.More - 1
 			}
 		}
 	}
@@ -1139,6 +1313,11 @@ func TestReplay(t *testing.T) {
 	}
 	close(jobs)
 	wg.Wait()
+	if _, replaying := vfutil.ReplayFile(); !replaying && os.Getenv("VERIF_SKIP_LARGE") == "" {
+		if err := largeBatches(rep, w, base, workers); err != nil {
+			t.Fatal(err)
+		}
+	}
 	if _, replaying := vfutil.ReplayFile(); !replaying && os.Getenv("VERIF_SKIP_SAMEHANDLE") == "" {
 		if err := spaceRetrySameHandle(rep, w.world, base); err != nil {
 			t.Fatal(err)
